@@ -53,7 +53,9 @@ def main():
     cases.append(("Sens.sub 0->1", [i for i in by["Sens"] if recs[i]["sub"] == 0 and inst(i)["uss"] and inst(i)["N"] >= 2][0],
                   lambda x: x.__setitem__("sub", 1), "any"))
     cases.append(("SetUp.ok=false", rnd.choice(by["SetUp"]), lambda x: x.__setitem__("ok", False), "line"))
-    cases.append(("Instance.y[5]+1", rnd.choice(by["Instance"]), bump("y", 5), "any"))
+    # bin 40 (0-based) of the non-TOF system = segment 0, view 0, middle axial position: used under every option set
+    # (data of an excluded segment or a zeroed end plane may be altered without consequence - that is the property)
+    cases.append(("Instance.y[40]+1", rnd.choice([i for i in by["Instance"] if not recs[i]["tof"]]), bump("y", 40), "any"))
     cases.append(("Instance.lam[0]+1", rnd.choice(by["Instance"]), bump("lam", 0), "any"))
     cases.append(("Instance.zero flipped", rnd.choice(by["Instance"]), lambda x: x.__setitem__("zero", not x["zero"]), "any"))
     cases.append(("Instance.N+1", [i for i in by["Instance"] if recs[i]["N"] < 4][0], lambda x: x.__setitem__("N", x["N"] + 1), "any"))
